@@ -145,6 +145,95 @@ func (x *Exec) localByNameAt(fn *ssa.Function, name string, at token.Pos) *ssa.A
 	return x.renamedLocal(fn, name, at)
 }
 
+// countingLoop: `for i := a; i < n; i += c` (c > 0) or `for i := a; i > n; i -= c`: the header compares a local that the loop
+// changes only in its single back-edge block, by a positive constant step towards the bound, with a constant, a local the loop
+// does not assign, or the length of such a local.
+func countingLoop(li *loopInfo) bool {
+	h := li.header
+	if len(h.Instrs) == 0 || len(li.backs) != 1 {
+		return false
+	}
+	iff, ok := h.Instrs[len(h.Instrs)-1].(*ssa.If)
+	if !ok {
+		return false
+	}
+	cmp, ok := iff.Cond.(*ssa.BinOp)
+	if !ok || (cmp.Op != token.LSS && cmp.Op != token.GTR) {
+		return false
+	}
+	loadOf := func(v ssa.Value) *ssa.Alloc {
+		for {
+			switch u := v.(type) {
+			case *ssa.Convert:
+				v = u.X
+				continue
+			case *ssa.UnOp:
+				if u.Op == token.MUL {
+					if a, ok := u.X.(*ssa.Alloc); ok {
+						return a
+					}
+				}
+			}
+			return nil
+		}
+	}
+	ctr := loadOf(cmp.X)
+	if ctr == nil {
+		return false
+	}
+	if b, ok := ctr.Type().(*types.Pointer).Elem().Underlying().(*types.Basic); !ok || b.Info()&types.IsInteger == 0 {
+		return false
+	}
+	storedInLoop := func(a *ssa.Alloc) []*ssa.Store {
+		var out []*ssa.Store
+		for _, r := range *a.Referrers() {
+			if st, ok := r.(*ssa.Store); ok && st.Addr == a && li.body[st.Block()] {
+				out = append(out, st)
+			}
+		}
+		return out
+	}
+	// the bound
+	switch bnd := cmp.Y.(type) {
+	case *ssa.Const:
+	case *ssa.Call:
+		bi, ok := bnd.Call.Value.(*ssa.Builtin)
+		if !ok || bi.Name() != "len" || len(bnd.Call.Args) != 1 {
+			return false
+		}
+		a := loadOf(bnd.Call.Args[0])
+		if a == nil || len(storedInLoop(a)) > 0 {
+			return false
+		}
+	default:
+		a := loadOf(cmp.Y)
+		if a == nil || len(storedInLoop(a)) > 0 {
+			return false
+		}
+	}
+	// the step
+	sts := storedInLoop(ctr)
+	if len(sts) != 1 || sts[0].Block() != li.backs[0] {
+		return false
+	}
+	step, ok := sts[0].Val.(*ssa.BinOp)
+	if !ok || loadOf(step.X) != ctr {
+		return false
+	}
+	c, ok := step.Y.(*ssa.Const)
+	if !ok || c.Value == nil {
+		return false
+	}
+	k := c.Int64()
+	switch {
+	case cmp.Op == token.LSS && ((step.Op == token.ADD && k > 0) || (step.Op == token.SUB && k < 0)):
+		return true
+	case cmp.Op == token.GTR && ((step.Op == token.SUB && k > 0) || (step.Op == token.ADD && k < 0)):
+		return true
+	}
+	return false
+}
+
 func sortedAllocs(fn *ssa.Function) []*ssa.Alloc {
 	var as []*ssa.Alloc
 	for _, b := range fn.Blocks {
@@ -1473,11 +1562,11 @@ func (x *Exec) enterLoop(li *loopInfo, st *State, pc Term) {
 	}
 	if x.fc != nil && x.fc.TerminatesOn {
 		goal := tTrue
-		if li.iter == nil && li.idxAlloc == nil && li.idxPhi == nil {
+		if li.iter == nil && li.idxAlloc == nil && li.idxPhi == nil && !countingLoop(li) {
 			goal = tFalse
 		}
 		x.vc.oblige(&Obligation{Name: fmt.Sprintf("%s.loop%d.terminates", x.fnName(), li.num), Kind: "termination", Tags: x.fc.Terminates, Goal: goal, PC: tTrue,
-			Src: "the loop ranges over a slice, string or map (structurally bounded); any other loop needs a bound that hv cannot check", Pos: x.posStr(firstPos(b))})
+			Src: "the loop ranges over a slice, string or map, or counts a local up / down to a bound it does not change (structurally bounded); any other loop needs a bound that hv cannot check", Pos: x.posStr(firstPos(b))})
 	}
 	if g, ok := x.rangeIdxInv(li, st); ok {
 		// len >= 0 is the slice type invariant; the index part is proved
